@@ -39,6 +39,10 @@ def run(ctx: Ctx):
     from .common import generic_lints
 
     generic_lints(ctx)
+    from .common import dependency_footprints
+
+    dependency_footprints(ctx)
+    no_explicit_nan(ctx)
 
 
 def _ops_text(av: AV) -> str:
@@ -209,3 +213,28 @@ def independence(ctx: Ctx):
     reads = measure_blocks_reads(ctx, som, "column_index")
     labels = data_labels(reads)
     ctx.ob("index-provenance", f"{MM}::SecondOrderMeasures.column_index", sorted(labels), "['W', 'W*']", labels == {"W", "W*"})
+
+
+def no_explicit_nan(ctx: Ctx):
+    """"NaN for inserted subtotals and where either share is undefined": undefinedness ARISES from the two divisions (0/0);
+    the only explicit NaN is the subtotal machinery (NanSubtotals).  Any other explicit NaN in the column-index classes
+    (np.where(mask, np.nan, ..), a masked store, np.full(.., np.nan)) blanks cells by some other criterion - e.g. rows
+    empty by their VALID base, whose unconditional share is positive and whose index is 0, not NaN."""
+    mod = ctx.repo.module(MM)
+    n, bad = 0, []
+    for ci in mod.classes.values():
+        if "columnindex" not in ci.name.lower():
+            continue
+        for m in ci.members.values():
+            n += 1
+            for c in ast.walk(m.node):
+                if isinstance(c, ast.Call) and u(c.func) in ("np.where", "np.full", "np.full_like", "np.putmask", "np.place") and any(u(a) in ("np.nan", "np.NaN", "float('nan')") for a in c.args):
+                    bad.append(f"{ci.name}.{m.name}: {u(c)[:80]}")
+                if isinstance(c, ast.Assign) and isinstance(c.targets[0], ast.Subscript) and u(c.value) in ("np.nan", "np.NaN", "float('nan')"):
+                    bad.append(f"{ci.name}.{m.name}: {u(c)[:80]}")
+    ctx.count("column-index members scanned for explicit NaN", n)
+    ctx.require_min("column-index members scanned for explicit NaN", 3)
+    if bad:
+        ctx.violated("index-nan", f"{MM}::_ColumnIndex*", bad, "NaN only from the divisions and from NanSubtotals", "cells are blanked by another criterion than an undefined share")
+    else:
+        ctx.held("index-nan", f"{MM}::_ColumnIndex*", "no explicit NaN besides NanSubtotals", "")
